@@ -20,7 +20,7 @@ package ledger
 //@   ensures def: r <==> min <= protoMajor && protoMajor <= max
 
 //@ func DetermineBlockType(headerCbor) (t, err)
-//@   props C36
+//@   props C02 C36
 //@   attr trackcalls on
 //@   ensures consistent: err == nil ==> called(inProtocolRange) && callres(inProtocolRange) &&
 //@       ((t == BlockTypeShelley && callarg(inProtocolRange, 1) == shelley.MinProtocolVersionShelley && callarg(inProtocolRange, 2) == shelley.MaxProtocolVersionShelley) ||
